@@ -2,7 +2,8 @@
 """Regenerates MANIFEST.json from tools/props.json (run by hand after editing props.json)."""
 import json, os
 V = os.path.dirname(os.path.dirname(os.path.abspath(__file__)))
-props = json.load(open(os.path.join(V, "tools", "props.json")))
+import glob
+props = {os.path.basename(f)[:-5]: json.load(open(f)) for f in glob.glob(os.path.join(V, "tools", "props", "C*.json"))}
 ids = [json.loads(l)["id"] for l in open(os.path.join(V, "properties.jsonl"))]
 checks, na = [], []
 for pid in ids:
